@@ -27,7 +27,16 @@ func xtimeWorld(r *R) {
 	}
 }
 
+// sleepScenario makes one to three SleepContext calls one after the other in the same run (state
+// that survives a call, such as pooled timers, must not leak into the next one).
 func sleepScenario(r *R) {
+	n := 1 + r.Choose(3, "sleeps")
+	for i := 0; i < n && !r.Failed(); i++ {
+		oneSleep(r)
+	}
+}
+
+func oneSleep(r *R) {
 	strict := r.Cfg.StallPer1k == 0 && r.Cfg.LatePer1k == 0
 	d := []time.Duration{50 * time.Millisecond, -time.Second, 0, time.Millisecond, 3 * time.Second, time.Hour}[r.Choose(6, "d")]
 	kind := r.Choose(9, "ctx") // 0 background, 1 deadline far, 2 deadline inside d, 3 deadline just inside, 4 deadline just beyond, 5 pre-cancelled, 6 cancelled mid-sleep, 7 deadline far AND cancelled mid-sleep, 8 deadline far AND already cancelled
